@@ -6,7 +6,7 @@ claim('C04', 'ast + CFG must-pass-through, provenance of trie keys and handler n
       'Decides structural necessary conditions of C04 on every path of the dispatch/attach/detach/reply code: handler node '
       'comes from longest_prefix(name) on the attach trie; all attach/detach keys are Name.normalize(arg); duplicate attach '
       'raises; detach deletes; reply sends only on the not-expired edge and returns a truthful bool. a match is never decided by the truthiness of the matched key (the empty name is a key). Does not decide pygtrie '
-      'semantics or timing values.',
+      'semantics or timing values. Also: a node enters a dispatch table only through the attach function of that table (no handler-less nodes shadowing shorter prefixes).',
       'Python semantics as modelled by the CFG builder; pygtrie longest_prefix; user handlers do not raise or re-enter')
 
 claim('C05', 'finite-domain verdict evaluation over the CFG (accepting-set), reaching definitions of the verdict, must-pass-through',
@@ -22,7 +22,7 @@ claim('C06', 'interprocedural exception-escape analysis with handler filtering a
       'calls resolved or the run fails closed), the set of exception classes that can leave them and requires it to be empty; '
       'requires the signature verifiers of the library to answer (not raise) for a packet without SignatureValue or with a key of another kind than its signature type; checks the stream loop catches end-of-stream, shuts down and delivers nothing, the framing dataflow (fresh buffer, T, L, '
       'readexactly(L), one task with (T, whole buffer)), byte-echo pairing in read_tl_num_from_stream and equality of its width '
-      'table with parse_tl_num. Does not execute packets; "unrelated Interests unaffected" is covered only through C03 bookkeeping.',
+      'table with parse_tl_num. Does not execute packets; "unrelated Interests unaffected" is covered only through C03 bookkeeping. Also: reading a UintField declared with an Enum base type counts as a ValueError raiser in the escape analysis.',
       'user callbacks and tabled library calls do not raise; asserts are invariants; exception hierarchy table; CancelledError legitimate')
 
 claim('C03', 'typestate/pairing over the CFG (acquire-release), exception-escape sets, 16-row decision table by abstract interpretation of the matching loop, loop-shape and provenance checks',
@@ -32,7 +32,7 @@ claim('C03', 'typestate/pairing over the CFG (acquire-release), exception-escape
       'time-out->InterestTimeout, cancel->InterestCanceled; InterestTreeNode.satisfy realises the matching rule on all 16 '
       'valuations and v1==v2; no early exit in the prefix walk / entry loop / nack loop; node deleted iff satisfy() reports empty; '
       'express registers before sending and waits on the same future/node/key; timeout()/cancel()/_clean_up shapes. '
-      'Does not decide deadline arithmetic, event-loop fairness or arrival order (timing).',
+      'Does not decide deadline arithmetic, event-loop fairness or arrival order (timing). Also: InterestTimeout / InterestCanceled are raised only as the outcome of the wait on the future itself.',
       'asyncio.wait_for / Future contract; pygtrie prefixes(); user validators do not raise')
 
 claim('C17', 'CFG must-pass-through on the status test with provenance of the tested reply, handler-coverage via exception-escape sets, with-region dominance, loop fall-through, call-shape checks',
@@ -40,7 +40,7 @@ claim('C17', 'CFG must-pass-through on the status test with provenance of the te
       'element of the awaited command>); all four documented command exceptions and every exception class parse_response can raise '
       '(computed interprocedurally, incl. the nullable body) are caught; exactly one command, sent inside the semaphore; timestamp '
       'bookkeeping only advances and (known finding) cannot be skipped; command verb/name/signing shape per front-end; '
-      'auto-registration loop and parse_response field copy complete. Does not decide clock values or real concurrency.',
+      'auto-registration loop and parse_response field copy complete. Does not decide clock values or real concurrency. Also: the timestamp test-and-advance lies inside the critical section that sends; the registration semaphore is created once per event loop / connection and shared by register and unregister.',
       'NFD management protocol tables (status 200, 0x65/0x66/0x67/0x68); asyncio.Semaphore semantics')
 
 claim('C19', 'path-sensitive walk of the generator under the six valuations of (segmented, segment 0, final) with a request/yield trace state, induction-variable analysis of the retry counter, handler-tuple check, provenance of the yielded value',
@@ -58,7 +58,7 @@ claim('C20', 'ordering of classified writes over the CFG, constant folding of en
       'get_path first-existing; default_face / default_keychain scheme tables by enumerating every scheme value plus "other" '
       '(raising default), default port 6363 only when absent; scheme:location splits at most once everywhere; resolve_location '
       'walked under 40 valuations of (colon, empty, absolute, exists as given, file present, exists relative, item) returns given / '
-      'relative to the file / platform default as specified. Does not decide file-system state or ConfigParser/urlparse behaviour.',
+      'relative to the file / platform default as specified. Does not decide file-system state or ConfigParser/urlparse behaviour. Also: the settings dict is created by each call (nothing written by one call is the default of the next).',
       'ConfigParser, urlparse and os.path semantics')
 
 claim('C18', 'exception-escape set of the handler, CFG ordering (no state write before the over-claim return), guard-polarity must-pass-through on stores, provenance of accumulator reads, loop/decision shape of the timer',
@@ -77,7 +77,7 @@ claim('C14', 'default-argument lint, finite-domain dispatch evaluation over Sign
       'cert_name == anchor_name, storage.load(cert_name), Content of a fetch of cert_name validated by next_level}, fetch failures '
       'reject; lvs_validator returns union(validate_name, cascade) and rewires next_level to it; union_checker is a conjunction; '
       'constructor refusals (self-signed anchor, roots of trust, user functions). Does not decide existence of a chain, '
-      'cryptographic validity or retrieval behaviour.',
+      'cryptographic validity or retrieval behaviour. Also: the key cache is filed under the full certificate name; validate() decides nothing by instance state it writes itself.',
       'Cryptodome verifiers; Checker.check/match semantics (C11/C12)')
 
 claim('C15', 'SQL effect extraction from string constants (table, WHERE columns, bound parameters), trigger parsing, resolved-call lint, def-use of the memo key, ordering of delete/reset effects, commit-compensation pattern',
@@ -88,7 +88,7 @@ claim('C15', 'SQL effect extraction from string constants (table, WHERE columns,
       'certificate, key name and certificate name belong together on every path, a Key / Identity object given as argument is used even when it holds nothing; deletes remove certificates, key row and private key (cascade is inert) and reset the signer cache afterwards; '
       'no commit between dependent inserts without a compensating delete; the private-key store never replaces an existing key; every step '
       'of new_key after the private key was stored runs under a handler that rolls back, deletes that private key and re-raises; TpmFile names files from one encoding. '
-      'Does not decide histories, crash points or reopen.',
+      'Does not decide histories, crash points or reopen. Also: ON DELETE CASCADE counts only if PRAGMA foreign_keys is enabled on the connection the delete methods use.',
       'sqlite3 trigger/unique-index semantics; no PRAGMA foreign_keys in the package')
 
 claim('C16', 'provenance of each certificate field, linear size algebra on the hand-assembled outer TLV (normal-form equality), extracted model field order against the certificate format',
@@ -98,7 +98,7 @@ claim('C16', 'provenance of each certificate field, linear size algebra on the h
       'with n = len(value) - shrink (symbolic equality); wrappers pass the right issuer component / period; certificate models keep '
       'SignatureInfo at 0x16 with ValidityPeriod 0xFD{0xFE,0xFF}; parse_certificate checks the Data type. '
       'issuing signers and verifiers agree on type, scheme parameters and hash (table shared with C02). '
-      'Does not decide signature validity or time-zone handling.',
+      'Does not decide signature validity or time-zone handling. Also: derive_cert hands the caller\'s start instant to new_cert as given; no memoised function hands out a mutable key name.',
       'NDN certificate format v2 numbers; datetime.strftime semantics')
 
 claim('C10', 'reaching definitions / provenance at the dispatch block, nullable-field narrowing of the Nack discriminator, must-pass-through on the token test, extracted NDNLPv2 model tables',
@@ -118,14 +118,14 @@ claim('C11', 'CFG must-pass-through with guard polarity on the matcher state mac
       'tag <= n); reference inlining concatenates both name chains and both constraint sets over the product of alternatives, '
       'redefinitions accumulate; the trie builder drops the constraints of a pattern seen earlier in a chain only for named patterns '
       '(a temporary one keeps them at every occurrence); save/load round-trip the model. Semantic equivalence of the compiler with '
-      'the schema text for all schemas x names is NOT decided.',
+      'the schema text for all schemas x names is NOT decided. Also: match() drops a trailing component only if it is the implicit digest.',
       'TlvModel codec of the binary model; lark grammar/parser')
 
 claim('C12', 'CFG must-pass-through on the signer membership test, provenance of the carried context, sibling normalisation checks, loop completeness of the signing-reference fix-up',
       'Decides: constraints are evaluated also on the bound-tag path (the defect that let /a/bar sign /b/bar); check() matches the key '
       'name under the bindings produced by the packet match and answers True only through `key node in packet node.sign_cons`, False '
       'by default; both names are normalised, digest-stripped and may be empty; every signer rule name maps to all node ids of that '
-      'rule, unknown signer raises, every rule-ending node is recorded; expanding a rule reference lends name and constraints but not signers (rule shared with C11); compiler pass order. The relation over all schema/name pairs is not decided.',
+      'rule, unknown signer raises, every rule-ending node is recorded; expanding a rule reference lends name and constraints but not signers (rule shared with C11); compiler pass order. The relation over all schema/name pairs is not decided. Also: no match of the key name starts from an empty context; only the implicit digest is dropped.',
       'as C11')
 
 claim('C13', 'guard-existence and raising-edge analysis against the documented sanity list (read from docs at run time), truthiness lint on integer ids, reachability of schema-error raises, loop progress of top_order',
@@ -135,7 +135,7 @@ claim('C13', 'guard-existence and raising-edge analysis against the documented s
       'unknown pattern, temporary pattern as value or argument, unknown signer) each have a guard raising SemanticError; the rule '
       'reference graph receives every reference of every definition of a rule (no entry re-initialised per definition); every round '
       'of top_order removes a node or raises. That every ill-formed schema is caught, and termination of _match on every accepted '
-      'model beyond the tree property, are not decided.',
+      'model beyond the tree property, are not decided. Also: no function between schema text and compiler input is memoised with a mutable result (the compiler rewrites the parse tree in place).',
       'docs/src/lvs/binary-format.rst lists exactly the mandatory rules')
 
 claim('C01', 'linear size algebra over the encoder methods (normal-form equality), def-use agreement of value normalisations, decision-table comparison, ordering/provenance checks on make/parse',
@@ -156,7 +156,7 @@ claim('C02', 'extracted model field order vs signed-portion definition, wiring/p
       'signer/verifier/digest checker consumes all covered blocks in order; digest checkers are truthy only through digest == value and '
       'refuse empty parts; signer and verifier agree on type constant and scheme parameters; verifiers return True only after verify(); '
       'both front-ends run the parameters-digest check whenever parameters are present (even empty) or a signature is (shared with C05). '
-      'Cryptographic soundness (tampering is rejected) is not decided.',
+      'Cryptographic soundness (tampering is rejected) is not decided. Also: a known-key validator accepts only through the verifier\'s answer for the packet at hand (no remembered verdicts); a running position kept while reporting covered name ranges advances on every path.',
       'Cryptodome primitives; NDN packet format 0.3 signed-portion definition as transcribed')
 
 claim('C07', 'taint/bounds dominance on wire-derived lengths, interprocedural escape sets of the decoders, guard existence for the mandatory Name, decision tables, model order vs format, loop-progress checks',
@@ -173,7 +173,7 @@ claim('C08', 'decision-table extraction and comparison with VAR-NUMBER / NonNega
       'per Field class value normalisations agree and announced == written size symbolically; container fields name the element field per element by the same template before measuring and before writing; TlvModel.encoded_length/encode/__eq__ walk '
       '_encoded_fields completely in order and the buffer is sized by encoded_length; the metaclass keeps class-body order; every '
       'shipped model has distinct sibling type numbers, resolvable nested models and acyclic nesting; scan-loop critical-bit rule '
-      '(shared with C07); map value type check (known finding). Equality after decode for all values / generated classes is not decided.',
+      '(shared with C07); map value type check (known finding). Equality after decode for all values / generated classes is not decided. Also: key and value sub-fields of a map entry get names of their own; TlvModel.encode runs the measuring pass before any field is written unless the markers say it has.',
       'struct widths B/H/I/Q; static model extraction equals the metaclass result (validated in the self-test)')
 
 claim('C09', 'decision tables (shortest form), sibling comparison of the three normalisers and of the URI writers, constant folding of CHARSET and the alternate-URI tables, linear size agreement of Name.encode/encoded_length',
@@ -183,5 +183,6 @@ claim('C09', 'decision tables (shortest form), sibling comparison of the three n
       'function; CHARSET = unreserved + {=,%} without /; from_str treats exactly % and = as metacharacters; alternate URI tables are '
       'inverse and match the naming conventions; digest shorthands symmetric; typed numbers use the smallest width; is_prefix '
       'normalises both sides and bounds the slice; Name.encode allocates what encoded_length announces. '
-      'Round-trip identity over all byte values is not decided.',
+      'Round-trip identity over all byte values is not decided. Also: the octet -> URI text rule of to_str / to_canonical_uri is folded for all 256 octet values whatever its spelling; no memoised function hands out a mutable name.',
       'NDN naming conventions table as transcribed')
+
